@@ -395,6 +395,15 @@ fn scenario_pairs() -> Vec<(&'static str, &'static str, &'static str)> {
         ("previous-element/group", r##"<svg><rect wh="1"/><g id="grp" class="k"><rect wh="3"/><circle r="1"/></g><reuse href="^" x="5"/></svg>"##, r##"<svg><rect wh="1"/><g id="grp" class="k"><rect wh="3"/><circle r="1"/></g><reuse href="#grp" x="5"/></svg>"##),
         ("previous-element/link", r##"<svg><rect wh="1"/><a id="lnk" href="x"><rect wh="3"/><circle r="1"/></a><rect id="p" xy="20 0" wh="2"/><reuse href="^" y="5"/></svg>"##, r##"<svg><rect wh="1"/><a id="lnk" href="x"><rect wh="3"/><circle r="1"/></a><rect id="p" xy="20 0" wh="2"/><reuse href="#p" y="5"/></svg>"##),
         ("previous-element/parameters", r##"<svg><var s="3"/><rect wh="$s"/><reuse href="^" s="5" x="10"/></svg>"##, r##"<svg><var s="3"/><rect wh="$s"/><rect x="10" wh="5"/></svg>"##),
+        // third review round
+        ("placed-template-own-resize/rect", r##"<svg><specs><rect id="t" wh="$s" dw="2" dh="50%"/></specs><reuse href="#t" s="4" y="1"/></svg>"##, r##"<svg><rect wh="4" dw="2" dh="50%" y="1" class="t"/></svg>"##),
+        ("placed-template-own-resize/circle", r##"<svg><specs><circle id="t" cxy="0" r="$s" dw="2"/></specs><reuse href="#t" s="4" x="10" y="10"/></svg>"##, r##"<svg><circle x="10" y="10" r="4" dw="2" class="t"/></svg>"##),
+        ("defaults-chosen-by-instance-classes/empty", r##"<svg><defaults><rect style="fill:red"/><rect match=".a" rx="2"/><rect match=".t" ry="1"/></defaults><specs><rect id="t" wh="$s"/></specs><reuse href="#t" s="3" style="stroke:blue" class="a"/></svg>"##, r##"<svg><defaults><rect style="fill:red"/><rect match=".a" rx="2"/><rect match=".t" ry="1"/></defaults><rect wh="3" style="stroke:blue" class="a t"/></svg>"##),
+        ("defaults-chosen-by-instance-classes/with-content", r##"<svg><defaults><rect style="fill:red"/><rect match=".a" rx="2"/><rect match=".t" ry="1"/></defaults><specs><rect id="t" wh="$s">hi</rect></specs><reuse href="#t" s="3" style="stroke:blue" class="a"/></svg>"##, r##"<svg><defaults><rect style="fill:red"/><rect match=".a" rx="2"/><rect match=".t" ry="1"/></defaults><rect wh="3" style="stroke:blue" class="a t">hi</rect></svg>"##),
+        ("defaults-chosen-by-instance-classes/expression", r##"<svg><var k="2"/><defaults><rect match=".a" rx="{{$k + $s}}"/></defaults><specs><rect id="t" wh="$s"/><rect id="u" wh="$s">hi</rect></specs><reuse href="#t" s="3" class="a"/><reuse href="#u" s="3" class="a" x="10"/></svg>"##, r##"<svg><defaults><rect match=".a" rx="5"/></defaults><rect wh="3" class="a t"/><rect wh="3" x="10" class="a u">hi</rect></svg>"##),
+        ("instance-with-content-evaluated-once/group", r##"<svg><var cost="99"/><specs><g id="tag" data-label="$label"><rect wh="30 10" text="$label"/></g></specs><reuse href="#tag" label="\$cost"/></svg>"##, r##"<svg><var cost="99"/><g data-label="\$cost" class="tag"><rect wh="30 10" text="\$cost"/></g></svg>"##),
+        ("instance-with-content-evaluated-once/shape", r##"<svg><var cost="99"/><specs><rect id="t" wh="$s" data-l="\$cost">hi</rect></specs><reuse href="#t" s="3" style="content:'\$cost'"/></svg>"##, r##"<svg><var cost="99"/><rect wh="3" data-l="\$cost" style="content:'\$cost'" class="t">hi</rect></svg>"##),
+        ("group-template-local-variables-placed", r##"<svg><specs><g id="dot" r="2" width="5"><circle r="$r" cxy="$c"/><rect wh="$width"/></g></specs><reuse href="#dot" c="0" x="10"/></svg>"##, r##"<svg><g r="2" width="5" transform="translate(10, 0)" class="dot"><circle r="2" cxy="0"/><rect wh="5"/></g></svg>"##),
         ("defaults-apply-to-instance", r##"<svg><defaults><rect rx="2" class="d"/></defaults><specs><rect id="t" wh="$s"/></specs><reuse href="#t" s="3"/></svg>"##, r##"<svg><defaults><rect rx="2" class="d"/></defaults><rect wh="3" class="t"/></svg>"##),
     ]
 }
